@@ -26,12 +26,23 @@ type Lens[S, A any] interface {
 	Put(*S, A) *S
 }
 
+// container asserts that the lens container S is a struct type: a lens
+// addresses its focus as an offset from *S, which is meaningless for any other
+// type (e.g. a pointer to a struct).
+func container[S any]() {
+	cat := reflect.TypeOf(new(S)).Elem()
+	if cat.Kind() != reflect.Struct {
+		panic(fmt.Errorf("invalid type: %s is not a struct, it cannot be a container of Lens or Reflector", cat))
+	}
+}
+
 // NewLens instantiates a typed Lens[S, A] for hseq.Type[S]
 func NewLens[S, A any](t hseq.Type[S]) Lens[S, A] {
 	ft := t.Type
 	fv := reflect.TypeOf(new(A)).Elem()
 
 	if ft.String() == fv.String() && ft.AssignableTo(fv) {
+		container[S]()
 		return &lens[S, A]{t}
 	}
 
